@@ -54,6 +54,7 @@ type Check struct {
 	Assumptions []string
 	Outside     string
 	Explanation string
+	Race        bool // build the native replay binary with the race detector
 }
 
 type task struct {
@@ -469,6 +470,7 @@ type native struct {
 	bins map[string]string // pkg -> test binary
 	err  map[string]error
 	runs int
+	race bool
 }
 
 func newNative(P *Program, r *runner) *native {
@@ -562,7 +564,12 @@ func TestVRT(t *testing.T) {
 	ovFile := filepath.Join(n.dir, strings.ReplaceAll(pkg, "/", "_")+"_overlay.json")
 	os.WriteFile(ovFile, ovb, 0o644)
 	bin := filepath.Join(n.dir, strings.ReplaceAll(pkg, "/", "_")+".test")
-	cmd := exec.Command("go", "test", "-c", "-vet=off", "-o", bin, "-overlay", ovFile, "./"+pkg+"/")
+	args := []string{"test", "-c", "-vet=off"}
+	if n.r != nil && n.r.chk.Race || n.race {
+		args = append(args, "-race")
+	}
+	args = append(args, "-o", bin, "-overlay", ovFile, "./"+pkg+"/")
+	cmd := exec.Command("go", args...)
 	cmd.Dir = n.P.repo
 	cmd.Env = append(os.Environ(), "GOFLAGS=-mod=mod", "GOPROXY=off", "GOSUMDB=off", "GOTOOLCHAIN=local")
 	out, err := cmd.CombinedOutput()
@@ -627,7 +634,7 @@ type natResult struct {
 	raw     string
 }
 
-func (n *native) run(pkg string, rj replayJSON, file string, timeout time.Duration) natResult {
+func (n *native) run(pkg string, rj replayJSON, file string, timeout time.Duration) (res natResult) {
 	bin, err := n.binary(pkg)
 	if err != nil {
 		return natResult{outcome: "nobuild"}
@@ -655,7 +662,12 @@ func (n *native) run(pkg string, rj replayJSON, file string, timeout time.Durati
 		}
 		return natResult{outcome: "timeout"}
 	}
-	res := natResult{raw: string(out), outcome: "crash"}
+	res = natResult{raw: string(out), outcome: "crash"}
+	defer func() {
+		if strings.Contains(res.raw, "DATA RACE") {
+			res.outcome = "race"
+		}
+	}()
 	for _, l := range strings.Split(string(out), "\n") {
 		switch {
 		case strings.HasPrefix(l, "VRT-RESULT "):
@@ -670,7 +682,7 @@ func (n *native) run(pkg string, rj replayJSON, file string, timeout time.Durati
 }
 
 func natFailed(o string) bool {
-	return o == "fail" || o == "timeout" || o == "crash" || strings.HasPrefix(o, "panic")
+	return o == "fail" || o == "timeout" || o == "crash" || o == "race" || strings.HasPrefix(o, "panic")
 }
 
 // validate replays sampled path models natively: the native run must pass and reach the same labels.
@@ -773,6 +785,9 @@ func replayCmd(id, file string) int {
 		return 2
 	}
 	n := newNative(P, nil)
+	if c := findCheck(id); c != nil {
+		n.race = c.Race
+	}
 	defer n.cleanup()
 	abs, _ := filepath.Abs(file)
 	res := n.run(rj.Pkg, rj, abs, 120*time.Second)
